@@ -262,8 +262,8 @@ func Universe(si *world.SchemaInfo, profile string) []Slot {
 		inv(1)
 		add(P(E("sys"), E("descr")), "d1", "d2", "waytoolongvalue")
 		inv(1)
-		add(P(E("sys"), E("code")), "abc1", "zz", "ABC")
-		inv(1)
+		add(P(E("sys"), E("code")), "abc1", "yy", "zz", "ABC")
+		inv(2) // "zz" fits the first pattern and misses the second, "ABC" misses the first
 		add(P(E("sys"), E("nums")), "1,2", "50", "1,99")
 		inv(1)
 		for _, k := range []string{"a", "b"} {
